@@ -364,7 +364,7 @@ func TestC04Transcript(t *testing.T) {
 var altKinds = []string{
 	"mutate-sig", "mutate-sig", "sig-bitflip", "sig-bitflip", "mutate-pk", "mutate-msg", "mutate-ctx", "other-key",
 	"z-set", "ctilde", "trailing", "truncated", "hint", "hint", "hint", "z-boundary", "z-boundary", "z-max-valid",
-	"ctx-wrap", "ctx-wrap",
+	"ctx-wrap", "ctx-wrap", "aliased", "aliased", "hint-ramp", "hint-ramp",
 }
 
 // ctxWrapLens are the context lengths around the 1-byte length field of the pure framing.
@@ -582,6 +582,117 @@ func TestC04Verdict(t *testing.T) {
 							}
 						}
 					}
+				case "hint-ramp":
+					// hint section replaced by a structured one: all omega index bytes form a strictly increasing ramp
+					// and the k count bytes are drawn over 0..255 (continuing the ramp, increasing, equal, decreasing,
+					// above omega, above omega+k); verdict = reference, a panic is a violation
+					sig := append([]byte{}, h.sig...)
+					hs := sig[p.HintOffset():]
+					step := rapid.IntRange(1, 255/(p.Omega+p.K)).Draw(t, "step")
+					start := rapid.IntRange(0, 255-step*(p.Omega+p.K-1)).Draw(t, "start")
+					for i := range hs {
+						hs[i] = byte(start + i*step)
+					}
+					mode := rapid.SampledFrom([]string{"continue-ramp", "continue-ramp", "increasing", "equal", "decreasing", "random", "valid-counts"}).Draw(t, "counts")
+					c := rapid.IntRange(0, 255).Draw(t, "c0")
+					d := rapid.IntRange(0, 12).Draw(t, "dc")
+					for i := 0; i < p.K; i++ {
+						switch mode {
+						case "increasing":
+							hs[p.Omega+i] = byte(min(255, c+i*d))
+						case "equal":
+							hs[p.Omega+i] = byte(c)
+						case "decreasing":
+							hs[p.Omega+i] = byte(max(0, c-i*d))
+						case "random":
+							hs[p.Omega+i] = rapid.Byte().Draw(t, "cnt")
+						case "valid-counts":
+							hs[p.Omega+i] = byte(min(p.Omega, (c%(p.Omega+1))*(i+1)/p.K))
+						}
+					}
+					verdict(t, h, "hint-ramp/"+mode, fmt.Sprintf("start %d step %d counts %v", start, step, hs[p.Omega:]), h.pkb, msg, ctx, sig, true)
+				case "aliased":
+					// ctx, msg and sig handed over as sub-slices (len < cap) of ONE buffer in a drawn order, directly
+					// adjacent or with small gaps: the verdict must be the reference's verdict on copies and the
+					// caller's buffer must be unchanged afterwards; same for SignTo with the destination in that buffer.
+					sigIn := append([]byte{}, h.sig...)
+					if rapid.IntRange(0, 3).Draw(t, "badsig") == 0 {
+						sigIn[rapid.IntRange(0, len(sigIn)-1).Draw(t, "bi")] ^= 0x04
+					}
+					ctxIn := ctx
+					if s.ctx && rapid.IntRange(0, 2).Draw(t, "otherctx") == 0 {
+						ctxIn = vlib.Bytes(t, 0, 255, "actx") // possibly not the signed context
+					}
+					parts := map[string][]byte{"ctx": ctxIn, "msg": msg, "sig": sigIn}
+					order := rapid.Permutation([]string{"ctx", "msg", "sig"}).Draw(t, "order")
+					gap := rapid.SampledFrom([]int{0, 0, 0, 1, 5}).Draw(t, "gap")
+					lay := func(parts map[string][]byte, order []string) ([]byte, map[string][]byte) {
+						var buf []byte
+						off := map[string]int{}
+						for _, n := range order {
+							off[n] = len(buf)
+							buf = append(buf, parts[n]...)
+							buf = append(buf, bytes.Repeat([]byte{0xee}, gap)...)
+						}
+						buf = append(buf, bytes.Repeat([]byte{0xee}, 8+len(msg))...) // spare capacity behind the last part
+						buf = append([]byte{}, buf...)
+						out := map[string][]byte{}
+						for _, n := range order {
+							out[n] = buf[off[n] : off[n]+len(parts[n])]
+						}
+						return buf, out
+					}
+					buf, sl := lay(parts, order)
+					before := append([]byte{}, buf...)
+					want, why := p.Verify(h.pkb, append([]byte{}, msg...), append([]byte{}, ctxIn...), append([]byte{}, sigIn...))
+					cA := ctxIn
+					if s.ctx {
+						cA = sl["ctx"] // zero-length with spare capacity when the context is empty
+					}
+					var got bool
+					if pn, st := vlib.Catch(func() { got = s.verify(h.pk, sl["msg"], cA, sl["sig"]) }); pn != nil {
+						vlib.Report(t, "C04/panic/"+s.name+"/Verify-aliased/"+vlib.PanicClass(pn), fmt.Sprintf("order %v gap %d: %v\n%s", order, gap, pn, st))
+						return
+					}
+					vlib.Eval(sub)
+					vlib.Class(sub, fmt.Sprintf("aliased-verify/%s→%s", strings.Join(order, ","), why))
+					if got != want {
+						if vlib.Report(t, "C04/verify-verdict/"+s.name+"/aliased-arguments", fmt.Sprintf("seed %x |msg|=%d |ctx|=%d: ctx, msg, sig passed as sub-slices of one buffer in order %v (gap %d): Verify = %v, on separate copies the specification says %v (%s)", seed, len(msg), len(ctxIn), order, gap, got, want, why)) {
+							return
+						}
+					}
+					if !bytes.Equal(buf, before) {
+						if vlib.Report(t, "C04/verify-verdict/"+s.name+"/caller-buffer-modified", fmt.Sprintf("seed %x order %v gap %d: Verify changed the caller's buffer at offset %d", seed, order, gap, firstDiff(buf, before))) {
+							return
+						}
+					}
+					// SignTo with the destination inside the same buffer
+					parts2 := map[string][]byte{"ctx": ctx, "msg": msg, "sig": make([]byte, s.sigSize)}
+					buf2, sl2 := lay(parts2, order)
+					before2 := append([]byte{}, buf2...)
+					cS := ctx
+					if s.ctx {
+						cS = sl2["ctx"]
+					}
+					var err error
+					if pn, st := vlib.Catch(func() { err = s.signInto(h.sk, sl2["msg"], cS, sl2["sig"]) }); pn != nil {
+						vlib.Report(t, "C04/panic/"+s.name+"/SignTo-aliased/"+vlib.PanicClass(pn), fmt.Sprintf("order %v gap %d: %v\n%s", order, gap, pn, st))
+						return
+					}
+					if err != nil || !bytes.Equal(sl2["sig"], h.sig) {
+						if vlib.Report(t, "C04/sign/"+s.name+"/aliased-arguments", fmt.Sprintf("seed %x: ctx, msg and destination as sub-slices of one buffer in order %v (gap %d): err=%v, signature differs from the specification at %d", seed, order, gap, err, firstDiff(sl2["sig"], h.sig))) {
+							return
+						}
+					}
+					for i := range sl2["sig"] { // neutralise the destination, then compare the rest
+						sl2["sig"][i] = 0
+					}
+					if !bytes.Equal(buf2, before2) {
+						if vlib.Report(t, "C04/sign/"+s.name+"/caller-buffer-modified", fmt.Sprintf("seed %x order %v gap %d: SignTo changed caller memory outside the destination at offset %d", seed, order, gap, firstDiff(buf2, before2))) {
+							return
+						}
+					}
+					vlib.NonTrivial(sub, "aliased-arguments", append(h.id(), []byte(strings.Join(order, ",")), []byte{byte(gap)}, sigIn)...)
 				case "other-key":
 					seed2 := append([]byte{}, seed...)
 					seed2[rapid.IntRange(0, 31).Draw(t, "sb")] ^= 1 << uint(rapid.IntRange(0, 7).Draw(t, "sbit"))
